@@ -170,6 +170,10 @@ func (mgr *manager) StartTurn() (key.TargetID, float64, []event.TurnStatus, erro
 		return -1, 0, nil, fmt.Errorf("cannot start turn when already in an active turn: %+v", mgr)
 	}
 
+	if mgr.orderHandler.Len() == 0 {
+		return -1, 0, nil, fmt.Errorf("cannot start turn: no targets in the turn order")
+	}
+
 	// So as to account for any Speed/gauge changes since the end of the previous turn, re-sort the turn order of targets.
 	sort.Stable(mgr.orderHandler)
 
@@ -181,6 +185,9 @@ func (mgr *manager) StartTurn() (key.TargetID, float64, []event.TurnStatus, erro
 	for _, t := range mgr.orderHandler.turnOrder {
 		t.gauge -= int64(av * mgr.attr.Stats(t.id).SPD())
 	}
+	// int64(av * SPD) may fall one unit short of the acting target's gauge; its gauge is 0 by
+	// definition so that it stays at the front of the order for the whole turn
+	mgr.orderHandler.turnOrder[0].gauge = 0
 
 	mgr.totalAV += av
 	return mgr.activeTarget, av, mgr.EventTurnStatus(), nil
@@ -198,18 +205,22 @@ func (mgr *manager) StartTurn() (key.TargetID, float64, []event.TurnStatus, erro
 // 5. Emit TurnResetEvent
 func (mgr *manager) ResetTurn() error {
 	if !mgr.activeTurn {
-		return fmt.Errorf(
-			"target at top of order must have 0 gauge to call reset (their turn is active) %+v", mgr.orderHandler.turnOrder[0])
+		return fmt.Errorf("no active turn to reset")
 	}
 
 	mgr.activeTurn = false
-	mgr.orderHandler.turnOrder[0].gauge = int64(float64(BaseGauge) * mgr.gaugeCost)
 
-	// It would be more efficient to loop through mgr.order ourselves to determine this single target's placement instead of resorting the whole array when no other elements are changing.
-	// Unless we are also checking for other SPD changes that happened during the turn, in which case sort.Stable() is better to use, but only after we move the element to the end
-	// so as to ensure that, in the case of a tie, it is properly at the tail end of the tied elements.
-	mgr.orderHandler.turnOrder = append(mgr.orderHandler.turnOrder, mgr.orderHandler.turnOrder[0])
-	mgr.orderHandler.turnOrder = mgr.orderHandler.turnOrder[1:]
+	// reset the target whose turn it is (not whoever happens to be at the top of the order: the
+	// acting target may have delayed itself, or have been removed from the order during its turn)
+	if idx, err := mgr.orderHandler.FindTargetIndex(mgr.activeTarget); err == nil {
+		active := mgr.orderHandler.turnOrder[idx]
+		active.gauge = int64(float64(BaseGauge) * mgr.gaugeCost)
+
+		// move the target to the end so that, in the case of a tie, the stable sort leaves it at
+		// the tail end of the tied elements
+		mgr.orderHandler.turnOrder = append(mgr.orderHandler.turnOrder[:idx], mgr.orderHandler.turnOrder[idx+1:]...)
+		mgr.orderHandler.turnOrder = append(mgr.orderHandler.turnOrder, active)
+	}
 	sort.Stable(mgr.orderHandler)
 
 	mgr.event.TurnReset.Emit(event.TurnReset{
